@@ -259,6 +259,9 @@ class reporter {
     violations.push(std::move(v));
     if (verbose) std::fprintf(stderr, "VIOLATION %s %s: %s\n", prop.c_str(), key.c_str(), what.c_str());
   }
+  // The worker stops early (scheduler verdict, poisoned process state); the driver
+  // continues with a fresh process from this case index.
+  void set_resume(u64 next_case) { const std::lock_guard<std::mutex> g{m}; resume_from = static_cast<long long>(next_case); }
   void inconclusive(const std::string& why) { const std::lock_guard<std::mutex> g{m}; if (inconcl.size() < 20) inconcl.push(why); ++inconclusive_total; }
   u64 violations_so_far() { const std::lock_guard<std::mutex> g{m}; return violation_total; }
   u64 violations_for(const std::string& prop) { const std::lock_guard<std::mutex> g{m}; const auto it = per_prop.find(prop); return it == per_prop.end() ? 0 : it->second; }
@@ -282,6 +285,7 @@ class reporter {
     r.set("counters", std::move(c)).set("samples", samples).set("notes", notes);
     r.set("violation_total", violation_total).set("violations", violations);
     r.set("inconclusive_total", inconclusive_total).set("inconclusive", inconcl);
+    if (resume_from >= 0) r.set("resume_from", resume_from);
     const auto text = r.dump();
     if (!report_path.empty()) {
       FILE* f = std::fopen((report_path + ".tmp").c_str(), "w");
@@ -306,6 +310,7 @@ class reporter {
   char* progress{nullptr};
   std::atomic<u64> evaluations{0};
   u64 nontrivial_total{0}, distinct_by_construction{0}, violation_total{0}, inconclusive_total{0};
+  long long resume_from{-1};
   std::unordered_set<u64> distinct;
   std::map<std::string, u64> counters;
   std::map<std::string, u64> violation_keys, per_prop;
